@@ -79,6 +79,46 @@ func faultSweep() []*Spec {
 // acknowledgement, subscribe frames": the retry is a new conversation on a new connection --
 // it dials again, writes connection_init and reads the acknowledgement before it reports success.
 func startRetryLeg(res *core.Result) {
+	// runs a call to its end: steps it as long as it stops at yield points
+	finish := func(s *Sched, name string, c *CallResult) {
+		for i := 0; i < 200 && !c.Done; i++ {
+			if !s.Step(name) {
+				s.quiesce(settle)
+				if !s.Step(name) {
+					break
+				}
+			}
+		}
+		s.quiesce(settle)
+	}
+	// (a) Close right after the failed Start (a deferred Close): it returns, without a panic
+	for _, k := range []int{2, 3} {
+		func() {
+			s := NewSched(k, false, nil)
+			defer s.Detach()
+			id := fmt.Sprintf("start-fault%d-then-close", k)
+			res.Count(id, true)
+			res.Dist("start-fault-then-close")
+			c1 := s.CallStart("start")
+			s.Step("start")
+			s.Step("start")
+			if k == 3 {
+				s.ServerSend([]byte(`{"type":"connection_ack"}`))
+				s.Step("start")
+			}
+			finish(s, "start", c1) // whatever Start still does on its way out
+			if !c1.Done || c1.Err == "" {
+				return
+			}
+			cc := s.CallClose("close")
+			finish(s, "close", cc)
+			rp := map[string]interface{}{"start_retry_fault_k": k}
+			if cc.Panic != "" {
+				res.Fail(core.Failure{Case: id, Class: "C15/close-after-failed-start-panic",
+					What: fmt.Sprintf("Start failed at connection operation %d; the Close that follows (a deferred Close) panicked: %s", k, cc.Panic), Replay: rp})
+			}
+		}()
+	}
 	for _, k := range []int{2, 3} {
 		func() {
 			s := NewSched(k, false, nil)
@@ -93,7 +133,7 @@ func startRetryLeg(res *core.Result) {
 				s.ServerSend([]byte(`{"type":"connection_ack"}`))
 				s.Step("start") // the read fails
 			}
-			s.quiesce(settle)
+			finish(s, "start", c1) // whatever Start still does on its way out
 			if !c1.Done || c1.Err == "" {
 				return // the fault did not make Start fail: judged by the every-k sweep, not here
 			}
@@ -133,6 +173,25 @@ func startRetryLeg(res *core.Result) {
 			if len(newFrames) == 0 || newFrames[0].Type != "connection_init" {
 				res.Fail(core.Failure{Case: id, Class: "C15/start-retry-without-init",
 					What: fmt.Sprintf("the second Start reported success without writing connection_init first on the new connection (frames: %v)", newFrames), Replay: rp})
+			}
+			// (b) the Close that ends the retried session: no panic, and the SECOND connection is
+			// closed (the first attempt must have left nothing behind that makes Close give up)
+			s.mu.Lock()
+			closesBefore := s.ConnCloses
+			s.mu.Unlock()
+			cc := s.CallClose("close")
+			finish(s, "close", cc)
+			s.mu.Lock()
+			closesAfter := s.ConnCloses
+			s.mu.Unlock()
+			if cc.Panic != "" {
+				res.Fail(core.Failure{Case: id, Class: "C15/close-after-start-retry-panic",
+					What: fmt.Sprintf("Start failed at connection operation %d, the second Start succeeded; the Close of that session panicked: %s (connection closed: %v)", k, cc.Panic, closesAfter > closesBefore), Replay: rp})
+				return
+			}
+			if cc.Done && closesAfter == closesBefore {
+				res.Fail(core.Failure{Case: id, Class: "C15/close-after-start-retry-leaks-connection",
+					What: fmt.Sprintf("Start failed at connection operation %d, the second Start succeeded; Close returned without closing the second connection", k), Replay: rp})
 			}
 		}()
 	}
